@@ -400,7 +400,9 @@ func execC20(c c20Case) vkit.Result {
 			res.Violate(sig("event", "accepted-event-not-forwarded"), "event %d %s was accepted but never reached Honeycomb; transmission errors: %v", i, in, marshalErrs)
 			continue
 		}
-		if len(outs) > 1 {
+		if len(outs) > 1 && rig.sendRetries() > 0 {
+			res.Class("inconclusive-timing/batch-resent-after-http-timeout")
+		} else if len(outs) > 1 {
 			res.Violate(sig("event", "event-forwarded-more-than-once"), "event %d %s reached Honeycomb %d times", i, in, len(outs))
 		}
 		out := outs[0].Data
